@@ -50,7 +50,32 @@ type multiFns struct {
 	newLine func(f, t graph.Node) graph.Line
 }
 
-func newMultiG(k mkind) multiFns {
+// maxWeightNoLines is what the harness's EdgeWeightFunc returns for no lines.
+const maxWeightNoLines = -5
+
+// maxWeight is the harness's EdgeWeightFunc: the maximum line weight. As
+// documented for WeightFunc it accepts nil and resets the iterator before returning.
+func maxWeight(lines graph.WeightedLines) float64 {
+	if lines == nil {
+		return maxWeightNoLines
+	}
+	w := float64(maxWeightNoLines)
+	for lines.Next() {
+		if lw := lines.WeightedLine().Weight(); lw > w {
+			w = lw
+		}
+	}
+	lines.Reset()
+	return w
+}
+
+// newMultiG builds the container; wfunc "max" installs maxWeight as the
+// EdgeWeightFunc of the weighted multigraphs (default: nil = sum of the weights).
+func newMultiG(k mkind, wfunc string) multiFns {
+	var f func(graph.WeightedLines) float64
+	if wfunc == "max" {
+		f = maxWeight
+	}
 	switch k {
 	case mDirected:
 		g := multi.NewDirectedGraph()
@@ -60,10 +85,12 @@ func newMultiG(k mkind) multiFns {
 		return multiFns{g, g.SetLine, g.NewLine}
 	case mWeightedDirected:
 		g := multi.NewWeightedDirectedGraph()
+		g.EdgeWeightFunc = f
 		return multiFns{g, func(l graph.Line) { g.SetWeightedLine(l.(graph.WeightedLine)) },
 			func(f, t graph.Node) graph.Line { return g.NewWeightedLine(f, t, ownLineWeight) }}
 	default:
 		g := multi.NewWeightedUndirectedGraph()
+		g.EdgeWeightFunc = f
 		return multiFns{g, func(l graph.Line) { g.SetWeightedLine(l.(graph.WeightedLine)) },
 			func(f, t graph.Node) graph.Line { return g.NewWeightedLine(f, t, ownLineWeight) }}
 	}
@@ -78,6 +105,7 @@ type mLine struct {
 
 // mModel: a set of nodes and a map (u,v) -> line ID -> line.
 type mModel struct {
+	wfunc              string // "" (sum) or "max": the EdgeWeightFunc installed
 	directed, weighted bool
 	nodes              map[int64]int
 	lines              map[[2]int64]map[int64]mLine // directed: (from,to); undirected: (min,max)
@@ -162,6 +190,16 @@ func (m *mModel) removeLine(u, v, lid int64) {
 // EdgeWeightFunc: the sum of the line weights.
 func (m *mModel) sum(u, v int64) (float64, bool) {
 	ls, ok := m.lines[m.pkey(u, v)]
+	if m.wfunc == "max" {
+		// EdgeWeightFunc = maxWeight
+		w := float64(maxWeightNoLines)
+		for _, l := range ls {
+			if l.w > w {
+				w = l.w
+			}
+		}
+		return w, ok
+	}
 	if !ok {
 		return 0, false
 	}
@@ -212,6 +250,7 @@ func lineKeyGot(l graph.Line) string {
 }
 
 type multiCfg struct {
+	wfunc   string // EdgeWeightFunc of the weighted multigraphs: "" = nil (sum), "max"
 	kind    mkind
 	variant string
 	ids     []int64
@@ -269,7 +308,7 @@ func multiOps(cfg *multiCfg) []op {
 
 func (y *multiSys) newInst() *mInst {
 	k := y.cfg.kind
-	return &mInst{touched: map[[2]int64]bool{}, multiFns: newMultiG(k), m: &mModel{directed: k.directed(), weighted: k.weighted(), nodes: map[int64]int{}, lines: map[[2]int64]map[int64]mLine{}}}
+	return &mInst{touched: map[[2]int64]bool{}, multiFns: newMultiG(k, y.cfg.wfunc), m: &mModel{wfunc: y.cfg.wfunc, directed: k.directed(), weighted: k.weighted(), nodes: map[int64]int{}, lines: map[[2]int64]map[int64]mLine{}}}
 }
 
 func (y *multiSys) keyOf(s *mInst) string {
@@ -615,7 +654,7 @@ func checkLineAdj(c *ctx, what string, a, mirror adj, live []int64, lids func(u,
 }
 
 func (y *multiSys) buildFresh(m *mModel) multiG {
-	f := newMultiG(y.cfg.kind)
+	f := newMultiG(y.cfg.kind, y.cfg.wfunc)
 	for _, id := range sortedIDs(m.nodes) {
 		f.g.AddNode(mkNode(id, m.nodes[id], ownMulti))
 	}
